@@ -271,9 +271,11 @@ def build_post(c):
             # a user-defined likelihood (log-density and gradient given as functions) next to a data likelihood
             w = np.cos(1.0 + np.arange(n))
             t0 = float(c["data2"][0])
-            UL = cuqi.likelihood.UserDefinedLikelihood(dim=n, logpdf_func=lambda z: float(-0.5 * (w @ np.asarray(z, dtype=float).reshape(-1) - t0) ** 2),
-                                                       gradient_func=lambda z: -(w @ np.asarray(z, dtype=float).reshape(-1) - t0) * w,
-                                                       geometry=geom, name=argname)
+            # (the parameter name of a user-defined likelihood is the argument name of its functions)
+            UL = cuqi.likelihood.UserDefinedLikelihood(
+                dim=n, logpdf_func=gen.named_callable([argname], lambda z: float(-0.5 * (w @ np.asarray(z, dtype=float).reshape(-1) - t0) ** 2)),
+                gradient_func=gen.named_callable([argname], lambda z: -(w @ np.asarray(z, dtype=float).reshape(-1) - t0) * w),
+                geometry=geom, name="u1")
             objs["multi"] = cuqi.distribution.MultipleLikelihoodPosterior(L, UL, prior)
         elif c["second"]:
             y2 = data_dist("y2", model)
